@@ -142,6 +142,7 @@ def _run_case(slot, case, keep_events=True):
         res["stages"]["diag"] = diag_stats(diag)
     except FileNotFoundError:
         pass
+    slots.write_boot(slot, spec)
     b = slots.build_driver(slot)
     res["stages"]["build"] = b
     if b["rc"] != 0:
